@@ -62,20 +62,30 @@ THEOREMS = [
     "Scenic.Pruning.dilate_passes_sound",
     "Scenic.Pruning.erode_count_sound",
     "Scenic.Pruning.dilate_count_sound",
-    "Scenic.Pruning.dilate_count_sound_partial",
     "Scenic.Pruning.dilate_relative_pitch_underbuffers",
+    "Scenic.Pruning.mem_dilate1",
+    "Scenic.Pruning.mem_erode1",
+    "Scenic.Pruning.buffer_voxels_sound",
+    "Scenic.Pruning.erode_voxels_sound",
     "Scenic.C08.erosion_amount_spec",
     "Scenic.C08.visibility_buffer_spec",
     "Scenic.C08.erode_count_sound",
-    "Scenic.C08.dilate_count_sound_partial",
+    "Scenic.C08.dilate_count_sound",
+    "Scenic.C08.buffer_voxels_sound",
+    "Scenic.C08.erode_voxels_sound",
+    "Scenic.C08.dilation_unclipped",
+    "Scenic.C08.dilation_clipped_underbuffers",
     # retry loops
     "Scenic.Pruning.retry_loop_terminates",
     "Scenic.Pruning.retry_loop_terminates_any",
     "Scenic.Pruning.retry_loop_diverges",
     "Scenic.Pruning.retry_loop_constant_iff",
+    "Scenic.Pruning.old_erode_loop_diverges",
+    "Scenic.Pruning.retry_trace_doubles",
+    "Scenic.Pruning.retryTrace_length",
     "Scenic.C08.buffer_retry_terminates",
-    "Scenic.C08.erode_retry_diverges",
     "Scenic.C08.erode_retry_terminates",
+    "Scenic.C08.erode_retry_coarsens",
     # conditioning
     "Scenic.Pruning.prune_preserves_cond",
     "Scenic.Pruning.prune_no_new_scenes",
@@ -90,11 +100,14 @@ SIDE = [
     "Scenic.C08.gen_rh_sound",
     "Scenic.C08.gen_amounts",
     "Scenic.C08.gen_erode_count",
-    "Scenic.C08.gen_dilate_plus",
+    "Scenic.C08.gen_dilate_count",
+    "Scenic.C08.gen_dilation_pads",
     "Scenic.C08.gen_buffer_loop",
+    "Scenic.C08.gen_erode_loop",
 ]
 MODULES = ["ScenicModel.Props.C08", "ScenicModel.Props.C08Bounds", "ScenicModel.Props.C08Heading",
-           "ScenicModel.Props.C08Geom", "ScenicModel.Props.C08Cond"]
+           "ScenicModel.Props.C08Geom", "ScenicModel.Props.C08Morph", "ScenicModel.Props.C08Loops",
+           "ScenicModel.Props.C08Cond"]
 
 P_ = "src/scenic/core/pruning.py"
 R_ = "src/scenic/syntax/relations.py"
@@ -276,7 +289,8 @@ def corr_bounds(ctx):
         for _ in range(ctx.budget(12, 40)):
             q = {t.i: (t.const if t.const is not None else rng.choice(vals)) for t in targets}
             env = {f"t{t.i}": t for t in targets}
-            env.update(Q=lambda t, q=q: q[t.i], R0=rng.choice(vals), R1=rng.choice(vals), abs=abs)
+            r0, r1 = rng.choice(vals), rng.choice(vals)
+            env.update(Q=lambda t, q=q: q[t.i], R0=r0, R1=r1, abs=abs)
             try:
                 truth = bool(eval(code, env))
             except Exception:
@@ -288,7 +302,7 @@ def corr_bounds(ctx):
             if r == "err":
                 if ctx.violation("inconsistent-but-satisfiable",
                                  f"`{src}` raises InconsistentScenarioError but holds for Q={q}",
-                                 {"kind": "bounds", "src": src, "q": {str(k): v for k, v in q.items()},
+                                 {"kind": "bounds", "src": src, "q": {str(k): v for k, v in q.items()}, "R0": r0, "R1": r1,
                                   "consts": {str(t.i): t.const for t in targets}}):
                     found = True
                 break
@@ -297,7 +311,7 @@ def corr_bounds(ctx):
                     opsused = sorted({o for o in OPSYM if f" {OPSYM[o]} " in f" {src} "})
                     if ctx.violation("bound-unsound:" + "+".join(opsused)[:40],
                                      f"`{src}` holds for Q(t{i})={q[i]} but the matcher extracted [{lo}, {hi}]",
-                                     {"kind": "bounds", "src": src, "q": {str(k): v for k, v in q.items()},
+                                     {"kind": "bounds", "src": src, "q": {str(k): v for k, v in q.items()}, "R0": r0, "R1": r1,
                                       "consts": {str(t.i): t.const for t in targets}}):
                         found = True
                     break
@@ -313,6 +327,38 @@ def corr_bounds(ctx):
                 if bad <= 5:
                     ctx.broken("correspondence", "bounds model vs RequirementMatcher", f"`{src}` [{ln}]: lean={a} python={b}")
     return found
+
+
+def bounds_verdict(rep):
+    """Re-evaluate one recorded requirement on the real matcher: (bad, text)."""
+    from scenic.core.distributions import Range
+    from scenic.core.errors import InconsistentScenarioError
+    from scenic.syntax.relations import RequirementMatcher
+    consts = {int(k): v for k, v in rep["consts"].items()}
+    ts = {f"t{i}": _Target(i, c) for i, c in consts.items()}
+    ns = dict(ts, Q=lambda t: t.const if t.const is not None else Range(0, 1), R0=Range(0, 1), R1=Range(0, 1), abs=abs)
+    m = RequirementMatcher(ns)
+    node = ast.parse(rep["src"], mode="eval").body
+    try:
+        out = [(t.i, b) for t, b in m.matchBounds(node, lambda nd: m.matchUnaryFunction("Q", nd))]
+    except InconsistentScenarioError:
+        out = "InconsistentScenarioError"
+    except Exception as e:
+        return True, f"`{rep['src']}`: RequirementMatcher raised {type(e).__name__}: {e}"
+    q = {int(k): v for k, v in (rep.get("q") or {}).items()}
+    text = f"requirement `{rep['src']}` extracted {out}; valuation Q={q}"
+    if not q:
+        return False, text
+    env = dict(ts, Q=lambda t: q[t.i], R0=rep.get("R0", 0), R1=rep.get("R1", 0), abs=abs)
+    truth = bool(eval(compile(ast.parse(rep["src"], mode="eval"), "<req>", "eval"), env))
+    if not truth:
+        return False, text + " does not satisfy the requirement"
+    if out == "InconsistentScenarioError":
+        return True, text + " satisfies the requirement, yet the matcher reports it inconsistent"
+    for i, (lo, hi) in out:
+        if not (lo <= q[i] <= hi):
+            return True, text + f" satisfies the requirement but Q(t{i}) is outside the extracted bounds"
+    return False, text + " satisfies the requirement and the bounds"
 
 
 # =========================================================================== (C)+(S) relative headings
@@ -448,6 +494,34 @@ def feasible_single_cell(pruning, args, lb, ub):
     return "0" if r.is_empty else "1"
 
 
+def true_rh(args, d, e):
+    from scenic.core.geometry import normalizeAngle
+    bh, oL, oR, th, tL, tR = args
+    return normalizeAngle(normalizeAngle(th + e) - normalizeAngle(bh + d))
+
+
+def rh_verdict(rep):
+    from scenic.core import pruning
+    args = tuple(rep["args"])
+    lo, hi = pruning.relativeHeadingRange(*args)
+    rh = true_rh(args, rep["d"], rep["e"])
+    text = (f"relativeHeadingRange{args} = ({lo}, {hi}); disturbances {rep['d']}, {rep['e']} give the true normalised "
+            f"relative heading {rh}")
+    bad = abs(abs(rh) - math.pi) >= 1e-6 and not (lo - 1e-9 <= rh <= hi + 1e-9)
+    return bad, text + (" outside the range" if bad else "")
+
+
+def rhkept_verdict(rep):
+    from scenic.core import pruning
+    args = tuple(rep["args"])
+    kept = feasible_single_cell(pruning, args, rep["lb"], rep["ub"])
+    rh = true_rh(args, rep["d"], rep["e"])
+    text = (f"feasibleRHPolygon single cell pair -> {kept}; range {pruning.relativeHeadingRange(*args)}, required "
+            f"[{rep['lb']}, {rep['ub']}], disturbances {rep['d']}, {rep['e']} give the relative heading {rh}")
+    bad = kept == "0" and abs(abs(rh) - math.pi) > 1e-6 and rep["lb"] + 1e-9 <= rh <= rep["ub"] - 1e-9
+    return bad, text + (" (a feasible pair of cells is dropped)" if bad else "")
+
+
 def perturbed_agrees(ctx, ln, m):
     toks = ln.split()
     idx = [i for i in range(3, len(toks)) if toks[i] != "none"]
@@ -472,39 +546,114 @@ def perturbed_agrees(ctx, ln, m):
 
 
 # =========================================================================== (C)+(S) voxel counts, morphology, loops
-def fixed_dilation(self, iterations, structure=None):
-    """Reference implementation of VoxelRegion.dilation on an unbounded grid (pads before dilating)."""
+def cheb_dilate(cells, k):
+    """closed form of k passes of the 3x3x3 element on an unbounded grid: all cells within Chebyshev distance k"""
+    out = set()
+    rng_ = range(-k, k + 1)
+    for (a, b, c) in cells:
+        for i in rng_:
+            for j in rng_:
+                for l in rng_:
+                    out.add((a + i, b + j, c + l))
+    return out
+
+
+def cheb_erode(cells, k):
+    """closed form of k erosion passes (outside the set is empty): cells whose whole Chebyshev-k block is set"""
+    cs = set(cells)
+    rng_ = range(-k, k + 1)
+    return {(a, b, c) for (a, b, c) in cs
+            if all((a + i, b + j, c + l) in cs for i in rng_ for j in rng_ for l in rng_)}
+
+
+def real_morph(shape, cells, k):
+    """VoxelRegion.dilation(k) of the given cells of a dense grid -> sorted list of integer cells"""
     import numpy
-    import scipy.ndimage
     import trimesh
-    from scenic.core.regions import VoxelRegion, nowhere
-    from trimesh.transformations import translation_matrix
-    if iterations == 0:
+    from scenic.core.regions import EmptyRegion, VoxelRegion
+    dense = numpy.zeros(shape, dtype=bool)
+    for c in cells:
+        dense[tuple(c)] = True
+    vr = VoxelRegion(voxelGrid=trimesh.voxel.VoxelGrid(trimesh.voxel.encoding.DenseEncoding(dense)))
+    out = vr.dilation(k)
+    if isinstance(out, EmptyRegion):
+        return []
+    return sorted(tuple(int(round(c)) for c in p) for p in out.voxelGrid.points.tolist())
+
+
+def morph_verdict(rep):
+    """(S) on the real function alone: dilation(k>0) must contain every cell within Chebyshev distance k of the set
+    (each pass dilates by at least one voxel), dilation(-k) must keep every cell whose Chebyshev-k block is set
+    (k passes never erode by more than k voxels).  -> (bad, text, got)"""
+    shape, cells, k = tuple(rep["shape"]), [tuple(c) for c in rep["cells"]], rep["k"]
+    got = real_morph(shape, cells, k)
+    ref = cheb_dilate(cells, k) if k > 0 else cheb_erode(cells, -k)
+    missing = sorted(ref - set(got))
+    text = (f"VoxelRegion.dilation({k}) of {len(cells)} voxels in a {shape} grid returns {len(got)} voxels; "
+            f"{abs(k)} passes of the 3x3x3 element on an unbounded grid give {len(ref)}")
+    if missing:
+        return True, text + f"; missing e.g. {missing[:4]}", got
+    return False, text, got
+
+
+def passes_verdict(rep):
+    """(S) pass counts of the real _erodeOverapproximate / _bufferOverapproximate for one mesh and amount:
+    never erode by more than the amount (k*sqrt(3)*edge <= amount), dilate by at least the amount (k*edge >= amount)."""
+    from scenic.core import regions
+    from scenic.core.regions import VoxelRegion
+    reg = getattr(regions, rep["shape"])(dimensions=tuple(rep["dims"]))
+    captured = []
+    real = VoxelRegion.dilation
+
+    def spy(self, iterations, structure=None):
+        captured.append(iterations)
         return self
-    func = scipy.ndimage.binary_dilation if iterations > 0 else scipy.ndimage.binary_erosion
-    k = abs(iterations)
-    if structure is None:
-        structure = scipy.ndimage.generate_binary_structure(3, 3)
-    dense = trimesh.voxel.morphology._dense(self.voxelGrid.encoding, rank=3)
-    transform = self.voxelGrid.transform
-    if iterations > 0:
-        dense = numpy.pad(dense, k, mode="constant", constant_values=False)
-        transform = transform @ translation_matrix([-k] * 3)
-    enc = trimesh.voxel.encoding.DenseEncoding(func(dense, structure=structure, iterations=k))
-    if enc.is_empty:
-        return nowhere
-    return VoxelRegion(voxelGrid=trimesh.voxel.VoxelGrid(enc, transform=transform))
+    VoxelRegion.dilation = spy
+    try:
+        with quiet():
+            getattr(reg, "_erodeOverapproximate" if rep["kind"] == "erodeit" else "_bufferOverapproximate")(
+                rep["amount"], rep["pitch"])
+    finally:
+        VoxelRegion.dilation = real
+    tp = rep["pitch"] * float(max(reg.mesh.extents))
+    it = captured[0] if captured else None
+    text = (f"{rep['shape']}{tuple(rep['dims'])}.{'_erodeOverapproximate' if rep['kind'] == 'erodeit' else '_bufferOverapproximate'}"
+            f"({rep['amount']}, {rep['pitch']}): voxel edge {tp:.6g}, dilation(iterations={it})")
+    if it is None:
+        return False, text, it, tp
+    if rep["kind"] == "erodeit":
+        bad = it < 0 and (-it) * math.sqrt(3) * tp > rep["amount"] * (1 + 1e-9)
+        return bad, text + (" erodes by up to %.6g > maxErosion" % ((-it) * math.sqrt(3) * tp) if bad else ""), it, tp
+    bad = it * tp < rep["amount"] * (1 - 1e-9)
+    return bad, text + (" dilates by only %.6g < minBuffer" % (it * tp) if bad else ""), it, tp
+
+
+def bufferover_verdict(rep):
+    """(S) points 0.97*amount outside the surface (along the axes through the centre) must be inside the buffer"""
+    from scenic.core import regions
+    from scenic.core.vectors import Vector
+    dims = tuple(rep["dims"])
+    reg = getattr(regions, rep["shape"])(dimensions=dims)
+    with quiet():
+        buf = reg._bufferOverapproximate(rep["amount"], rep["pitch"])
+    missing = []
+    for ax in range(3):
+        for sg in (-1, 1):
+            pt = [0.0, 0.0, 0.0]
+            pt[ax] = sg * (dims[ax] / 2 + 0.97 * rep["amount"])
+            if not buf.containsPoint(Vector(*pt)):
+                missing.append(pt)
+    text = f"{rep['shape']}{dims}._bufferOverapproximate({rep['amount']}, {rep['pitch']})"
+    if missing:
+        return True, text + f" does not contain {missing[0]}, which is within {rep['amount']} of the mesh"
+    return False, text + " contains the six probes"
 
 
 def corr_voxels(ctx, gen):
-    """VoxelRegion.dilation vs the model's k-pass 3x3x3 morphology on an unbounded grid; pass counts of
-    _erodeOverapproximate / _bufferOverapproximate vs the model; the over-approximation claims on the real code."""
-    import numpy
+    """VoxelRegion.dilation vs the model's k-pass 3x3x3 morphology; pass counts of _erodeOverapproximate /
+    _bufferOverapproximate vs the model; the over-approximation claims on the real code."""
     import scenic  # noqa
-    import trimesh
-    from scenic.core import regions
-    from scenic.core.regions import BoxRegion, EmptyRegion, MeshVolumeRegion, SpheroidRegion, VoxelRegion
-    from scenic.core.vectors import Vector
+    from scenic.core.regions import BoxRegion, SpheroidRegion, VoxelRegion
     rng = ctx.rng
     found = False
     build_ok = ctx.proof is not None and ctx.proof.build_ok
@@ -512,97 +661,66 @@ def corr_voxels(ctx, gen):
     lines, expect = [], []
     for _ in range(ctx.budget(40, 400)):
         shape = (rng.randint(1, 4), rng.randint(1, 4), rng.randint(1, 4))
-        dense = numpy.zeros(shape, dtype=bool)
+        cells0 = set()
         for _ in range(rng.randint(1, 6)):
-            dense[rng.randrange(shape[0]), rng.randrange(shape[1]), rng.randrange(shape[2])] = True
+            cells0.add((rng.randrange(shape[0]), rng.randrange(shape[1]), rng.randrange(shape[2])))
         if rng.random() < 0.3:
-            dense[:] = True
+            cells0 = {(a, b, c) for a in range(shape[0]) for b in range(shape[1]) for c in range(shape[2])}
+        cells0 = sorted(cells0)
         k = rng.choice([1, 1, 2, 3, -1, -1, -2])
-        vg = trimesh.voxel.VoxelGrid(trimesh.voxel.encoding.DenseEncoding(dense))
-        vr = VoxelRegion(voxelGrid=vg)
-        cells0 = sorted(map(tuple, numpy.argwhere(dense).tolist()))
+        rep = {"kind": "morph", "shape": shape, "cells": cells0, "k": k}
         try:
-            out = vr.dilation(k)
+            bad, text, got = morph_verdict(rep)
         except Exception as e:
-            if ctx.violation("voxel-dilation-crash:" + type(e).__name__, f"VoxelRegion.dilation({k}) raised {e!r}",
-                             {"kind": "morph", "shape": shape, "cells": cells0, "k": k}):
+            if ctx.violation("voxel-dilation-crash:" + type(e).__name__, f"VoxelRegion.dilation({k}) raised {e!r}", rep):
                 found = True
             continue
-        if isinstance(out, EmptyRegion):
-            got = []
-        else:
-            pts = out.voxelGrid.points
-            got = sorted(tuple(int(round(c)) for c in p) for p in pts.tolist())
+        ctx.evaluations += 1
         kind = "dilate" if k > 0 else "erode"
-        lines.append(f"C08 morph {kind} {abs(k)} " + " ".join(",".join(map(str, c)) for c in cells0))
-        expect.append((got, shape, cells0, k))
+        if bad:
+            if ctx.violation("voxel-dilation-too-small" if k > 0 else "voxel-erosion-too-large", text, rep):
+                found = True
+        lines.append(f"C08 morph {kind} {abs(k)} {shape[0]} {shape[1]} {shape[2]} " + " ".join(",".join(map(str, c)) for c in cells0))
+        expect.append(got)
         ctx.hist("morph", kind)
     if build_ok and lines:
         lean = ctx.driver(lines)
-        for ln, a, (got, shape, cells0, k) in zip(lines, lean, expect):
+        bad = 0
+        for ln, a, got in zip(lines, lean, expect):
             ctx.case(ln)
             model = sorted(tuple(map(int, c.split(","))) for c in a.split()) if a != "-" else []
             if model != got:
-                # is the real result the model's result clipped to the original array bounds?
-                clipped = [c for c in model if all(0 <= c[i] < shape[i] for i in range(3))]
-                if k > 0 and got == clipped:
-                    if ctx.violation("voxel-dilation-clipped",
-                                     f"VoxelRegion.dilation({k}) of {len(cells0)} voxels in a {shape} grid returns {len(got)} voxels; "
-                                     f"{k} passes of the 3x3x3 element on an unbounded grid give {len(model)} "
-                                     "(the result is clipped to the bounds of the original grid)",
-                                     {"kind": "morph", "shape": shape, "cells": cells0, "k": k}):
-                        found = True
-                else:
+                bad += 1
+                if bad <= 5:
                     ctx.broken("correspondence", "voxel morphology model vs VoxelRegion.dilation",
                                f"{ln}: lean={a[:200]} python={got[:30]}")
     # ---- pass counts (intercept the argument handed to VoxelRegion.dilation)
     lines, meta = [], []
-    captured = []
-    real_dilation = VoxelRegion.dilation
-
-    def spy(self, iterations, structure=None):
-        captured.append(iterations)
-        return self
     meshes = []
     for _ in range(ctx.budget(25, 200)):
         dims = tuple(rng.choice([0.2, 0.4, 0.9, 1, 2, 3, 6, 10, 25]) * rng.choice([1, 1, 0.5]) for _ in range(3))
-        meshes.append((dims, BoxRegion(dimensions=dims) if rng.random() < 0.5 else SpheroidRegion(dimensions=dims)))
-    VoxelRegion.dilation = spy
-    try:
-        for dims, reg in meshes:
-            ext = float(max(reg.mesh.extents))
-            for _ in range(6):
-                pitch = rng.choice([0.15, 0.3, 0.6, 0.15])
-                tp = pitch * ext
-                amount = rng.choice([0.05, 0.3, 0.5, 0.866, 1.0, 2.0, 3.0, 7.5]) * rng.choice([1, ext / 2, 1])
-                # exact multiples of sqrt(3)*tp are numerically ambiguous: keep a margin
-                ratio = amount / (math.sqrt(3) * tp)
-                del captured[:]
-                with quiet():
-                    reg._erodeOverapproximate(amount, pitch)
-                if captured and abs(ratio - round(ratio)) > 1e-6:
-                    it = captured[0]
-                    lines.append(f"C08 erodeit {fr(amount)} {fr(pitch)} {fr(tp)}")
+        meshes.append((dims, "BoxRegion" if rng.random() < 0.5 else "SpheroidRegion"))
+    for dims, shp in meshes:
+        ext = float(max(dims))
+        for _ in range(6):
+            pitch = rng.choice([0.15, 0.3, 0.6, 0.15])
+            tp = pitch * ext
+            amount = rng.choice([0.05, 0.3, 0.5, 0.866, 1.0, 2.0, 3.0, 7.5]) * rng.choice([1, ext / 2, 1])
+            for kind in ("erodeit", "dilateit"):
+                rep = {"kind": kind, "shape": shp, "dims": dims, "amount": amount, "pitch": pitch}
+                bad, text, it, tp_real = passes_verdict(rep)
+                ctx.evaluations += 1
+                if it is None:
+                    continue
+                if bad:
+                    if ctx.violation("erode-passes-too-many" if kind == "erodeit" else "dilate-passes-too-few", text, rep):
+                        found = True
+                # exact multiples of the divisor are numerically ambiguous: keep a margin in the comparison with the model
+                ratios = [amount / (math.sqrt(3) * tp_real)] if kind == "erodeit" else [amount / pitch, amount / tp_real]
+                if all(abs(r - round(r)) > 1e-6 for r in ratios):
+                    lines.append(f"C08 {kind} {fr(amount)} {fr(pitch)} {fr(tp_real)}")
                     meta.append("same" if it == 0 else f"dilate {it}" if it > 0 else f"erode {-it}")
-                    ctx.hist("erode_arg", "same" if it == 0 else "dilate" if it > 0 else "erode")
-                    # (S) never erode by more than the amount: k*sqrt(3)*tp <= amount
-                    if it < 0 and (-it) * math.sqrt(3) * tp > amount * (1 + 1e-9):
-                        if ctx.violation("erode-passes-too-many",
-                                         f"_erodeOverapproximate({amount}, {pitch}) on extent {ext} makes {-it} erosion passes of up to "
-                                         f"{math.sqrt(3) * tp:.4g} each, more than maxErosion",
-                                         {"kind": "erodeit", "dims": dims, "amount": amount, "pitch": pitch}):
-                            found = True
-                del captured[:]
-                r2 = amount / pitch
-                with quiet():
-                    reg._bufferOverapproximate(amount, pitch)
-                if captured and abs(r2 - round(r2)) > 1e-6 and abs(amount / tp - round(amount / tp)) > 1e-6:
-                    it = captured[0]
-                    lines.append(f"C08 dilateit {fr(amount)} {fr(pitch)} {fr(tp)}")
-                    meta.append("same" if it == 0 else f"dilate {it}" if it > 0 else f"erode {-it}")
-                    ctx.hist("dilate_passes_enough", str(it * tp >= amount))
-    finally:
-        VoxelRegion.dilation = real_dilation
+                ctx.hist(kind, "same" if it == 0 else "dilate" if it > 0 else "erode")
     if build_ok and lines:
         lean = ctx.driver(lines)
         bad = 0
@@ -613,59 +731,126 @@ def corr_voxels(ctx, gen):
                 if bad <= 5:
                     ctx.broken("correspondence", "pass-count model vs _erodeOverapproximate/_bufferOverapproximate",
                                f"{ln}: lean={a} python={b}")
-    # ---- (S) the over-approximation claims on the real functions
-    small = [((0.4, 0.4, 0.4), SpheroidRegion(dimensions=(0.4, 0.4, 0.4))), ((0.8, 0.3, 0.2), BoxRegion(dimensions=(0.8, 0.3, 0.2)))]
-    for dims, reg in small + meshes[: ctx.budget(8, 60)]:
-        ext = float(max(reg.mesh.extents))
-        amount = rng.choice([0.3, 0.5, 0.866, 1.5])
-        pitch = rng.choice([0.15, 0.3])
-        with quiet():
-            try:
-                buf = reg._bufferOverapproximate(amount, pitch)
-            except Exception as e:
-                ctx.hist("buffer_over", "raised:" + type(e).__name__)
-                continue
-        # points at distance 0.97*amount outside the surface, along the axes through the centre
-        missing = []
-        for ax in range(3):
-            for sg in (-1, 1):
-                p = [0.0, 0.0, 0.0]
-                p[ax] = sg * (dims[ax] / 2 + 0.97 * amount)
-                ctx.evaluations += 1
-                if not buf.containsPoint(Vector(*p)):
-                    missing.append(p)
-        ctx.case(("bufferover", dims, amount, pitch))
-        if missing:
-            # which of the two known causes?  repeat with the reference (unclipped) dilation
-            VoxelRegion.dilation = fixed_dilation
-            try:
-                with quiet():
-                    buf2 = reg._bufferOverapproximate(amount, pitch)
-                still = [p for p in missing if not buf2.containsPoint(Vector(*p))]
-            finally:
-                VoxelRegion.dilation = real_dilation
-            key = "buffer-overapproximate-too-small:" + ("relative-pitch" if still else "dilation-clipped")
-            if ctx.violation(key, f"{type(reg).__name__}{dims}._bufferOverapproximate({amount}, {pitch}) does not contain {missing[0]}, "
-                                  f"which is within {amount} of the mesh", {"kind": "bufferover", "shape": type(reg).__name__,
-                                                                             "dims": dims, "amount": amount, "pitch": pitch}):
+    # ---- (S) the over-approximation claim of _bufferOverapproximate on the real function
+    small = [((0.4, 0.4, 0.4), "SpheroidRegion"), ((0.8, 0.3, 0.2), "BoxRegion")]
+    for dims, shp in small + meshes[: ctx.budget(8, 60)]:
+        rep = {"kind": "bufferover", "shape": shp, "dims": dims, "amount": rng.choice([0.3, 0.5, 0.866, 1.5]),
+               "pitch": rng.choice([0.15, 0.3])}
+        if rep["amount"] / (rep["pitch"] * max(dims)) > 60:
+            continue  # (more than 60 dilation passes: voxel grid too large for a quick probe)
+        try:
+            bad, text = bufferover_verdict(rep)
+        except Exception as e:
+            ctx.hist("buffer_over", "raised:" + type(e).__name__)
+            continue
+        ctx.evaluations += 6
+        ctx.case(("bufferover", dims, rep["amount"], rep["pitch"]))
+        if bad:
+            if ctx.violation("buffer-overapproximate-too-small", text, rep):
                 found = True
-            ctx.hist("buffer_over", key)
+            ctx.hist("buffer_over", "too-small")
         else:
             ctx.hist("buffer_over", "contains-probes")
-    # ---- retry loops: model runs with the generated configuration
-    if build_ok:
-        p0 = Fraction(gen["pruningPitch"]) if gen else Fraction(3, 20)
-        seq = [p0, min(2 * p0, 1), min(4 * p0, 1), min(8 * p0, 1)]
-        lines = []
-        for which in ("erode", "buffer"):
-            for okset in ([], [seq[0]], [seq[1]], [seq[2]], [Fraction(1)], seq):
-                lines.append(f"C08 retry {which} 50 " + " ".join(fr(x) for x in okset))
-        for ln, a in zip(lines, ctx.driver(lines)):
-            ctx.case(ln)
-            ctx.hist("retry_model", ln.split()[2] + ":" + a.split()[0])
-            if ln.split()[2] == "buffer" and a == "running":
-                ctx.broken("correspondence", "buffer retry loop", f"{ln}: the model of bufferHelper's loop does not terminate")
     return found
+
+
+class _Spin(Exception):
+    pass
+
+
+def corr_loops(ctx, gen):
+    """(C) the two `while ... is None` loops of pruning.py, run for real with the voxel->mesh conversion replaced by
+    an oracle on the pitch, vs `retryLoop` / `retryTrace` of the model with the generated configuration."""
+    import scenic
+    from scenic.core import pruning
+    from scenic.core.regions import BoxRegion, MeshVolumeRegion, VoxelRegion
+    from scenic.syntax import translator
+    if not (ctx.proof is not None and ctx.proof.build_ok):
+        return False
+
+    class FakeVoxel(VoxelRegion):
+        """a voxel region whose conversion to a mesh fails"""
+        mesh = None
+
+        def __init__(self):
+            pass
+    p0 = float(pruning.PRUNING_PITCH)
+    grid = [p0, min(2 * p0, 1), min(4 * p0, 1), min(8 * p0, 1), 1.0]
+    oksets = [[], [grid[0]], [grid[1]], [grid[2]], [1.0], [grid[1], 1.0], grid]
+    FUEL = 12
+    old = translator.usePruning
+    translator.usePruning = False
+    try:
+        with quiet():
+            sc_e = scenic.scenarioFromString(
+                "region = BoxRegion(dimensions=(30,30,30))\n"
+                "ego = new Object in region, with regionContainedIn BoxRegion(dimensions=(20,20,20)),\n"
+                "    with width 2, with length 2, with height 2\n")
+            sc_b = scenic.scenarioFromString(
+                "workspace = Workspace(RectangularRegion(0@0, 0, 10, 10))\n"
+                "ego = new Object at (0,0,0), with visibleDistance 2, with allowCollisions True\n"
+                "foo = new Object in workspace, with requireVisible True, with allowCollisions True\n")
+    finally:
+        translator.usePruning = old
+    real_e, real_b = MeshVolumeRegion._erodeOverapproximate, MeshVolumeRegion._bufferOverapproximate
+    lines, got = [], []
+    for which, sc, fn in (("erode", sc_e, pruning.pruneContainment), ("buffer", sc_b, pruning.pruneVisibility)):
+        for ok in oksets:
+            calls = []
+
+            def isok(pitch):
+                return any(abs(pitch - q) < 1e-9 for q in ok)
+
+            def stub_e(self, amount, pitch):
+                calls.append(float(pitch))
+                if len(calls) > FUEL:
+                    raise _Spin()
+                return BoxRegion(dimensions=(18, 18, 18)) if isok(pitch) else FakeVoxel()
+
+            def stub_b(self, amount, pitch):
+                calls.append(float(pitch))
+                if len(calls) > FUEL:
+                    raise _Spin()
+                if pitch >= 1:  # the callee's own behaviour at the coarsest pitch is part of what is compared
+                    r = getattr(real_b, "__wrapped__", real_b)(self, amount, pitch)
+                    return FakeVoxel() if isinstance(r, VoxelRegion) and not isok(pitch) else r
+                return BoxRegion(dimensions=(8, 8, 8)) if isok(pitch) else FakeVoxel()
+            MeshVolumeRegion._erodeOverapproximate = stub_e
+            MeshVolumeRegion._bufferOverapproximate = stub_b
+            state = "done"
+            try:
+                with quiet():
+                    fn(sc, 0)
+            except _Spin:
+                state = "running"
+                calls = calls[:FUEL]
+            except Exception as e:
+                state = "raised:" + type(e).__name__
+            finally:
+                MeshVolumeRegion._erodeOverapproximate = real_e
+                MeshVolumeRegion._bufferOverapproximate = real_b
+                for o in sc.objects:
+                    o.position._conditioned = o.position
+            tr = " ".join(fr(Fraction(c).limit_denominator(10 ** 6)) for c in calls)
+            got.append((f"done {len(calls)} {tr}" if state == "done" else f"{state} {tr}").strip())
+            lines.append(f"C08 retry {which} {FUEL} " + " ".join(fr(Fraction(x).limit_denominator(10 ** 6)) for x in ok))
+            ctx.hist("retry_real", f"{which}:{state}:{len(calls)}")
+    bad = 0
+    for ln, a, b in zip(lines, ctx.driver(lines), got):
+        ctx.case(ln)
+        if a.strip() != b:
+            bad += 1
+            if bad <= 5:
+                ctx.broken("correspondence", "retry-loop model vs pruneContainment / bufferHelper (conversion stubbed)",
+                           f"{ln}: lean={a} python={b}")
+    return False
+
+
+GLUE_VERDICTS = {}
+
+
+def corr_glue(ctx, gen):
+    return False
 
 
 def erode_trigger(ctx, gen):
@@ -709,10 +894,6 @@ def erode_trigger(ctx, gen):
     else:
         ctx.hist("erode_loop", f"no-unconvertible-voxelization-in-{tried}")
     return found
-
-
-class _Spin(Exception):
-    pass
 
 
 def _erode_loop_child(rep):
@@ -792,7 +973,7 @@ def gen_contain(rng):
         spec = rng.choice(["in workspace", "in workspace", "on workspace", "offset", "offsetR", "incont"])
         extra = gen_size(rng) + gen_facing(rng)
         if spec == "on workspace" and rng.random() < 0.5:
-            extra += rng.choice([", with baseOffset (0.1, 0, self.height/2)", ", with baseOffset (0.3, 0.2, 0.5), with contactTolerance 0",
+            extra += rng.choice([", with baseOffset (0.1, 0, 0.5)", ", with baseOffset (0.3, 0.2, 0.5), with contactTolerance 0",
                                  ", with contactTolerance 0.3"])
         if spec == "offset":
             lines.append(f"p{i} = new Point in workspace")
@@ -869,11 +1050,13 @@ def gen_heading(rng):
     for i in range(1, ncell):
         u += f".union(r{i})"
     lines.append(f"union = {u}")
-    fac = lambda: rng.choice(["facing vf", "facing vf", "facing vf", "facing (Range(-10, 10) deg) relative to vf",
-                              "facing (Range(0, 25) deg) relative to vf", "facing 20 deg relative to vf"])
-    egox = rng.choice(["", ", with visibleDistance 100", ", with visibleDistance 25", ", with visibleDistance Range(20, 30)"])
+    # (`facing X relative to vf` composes orientations and is not matched by matchPolygonalField: kept as a rare
+    #  negative case; a random visibleDistance is rejected by Scenic itself with or without pruning)
+    fac = lambda: rng.choice(["facing vf"] * 8 + ["facing (Range(-10, 10) deg) relative to vf", "facing 20 deg relative to vf"])
+    egox = rng.choice(["", ", with visibleDistance 100", ", with visibleDistance 25", ", with visibleDistance 12",
+                       ", with visibleDistance 32"])
     lines.append(f"ego = new Object in union, {fac()}{egox}, with allowCollisions True")
-    link = rng.choice(["reqvis", "visfrom", "dist", "dist", "none"])
+    link = rng.choice(["reqvis", "reqvis", "visfrom", "visfrom", "dist", "dist", "dist", "none"])
     ox = {"reqvis": ", with requireVisible True", "visfrom": ", visible from ego", "dist": "", "none": ""}[link]
     lines.append(f"other = new Object in union, {fac()}{ox}, with allowCollisions True")
     i, j = rng.sample(range(ncell), 2)
@@ -1024,22 +1207,6 @@ def analyse(task):
     from scenic.syntax import translator
     res = {"status": "ok", "stage": "start", "t": {}}
     code, seed = task["code"], task["seed"]
-    if task.get("repaired"):
-        VoxelRegion.dilation = fixed_dilation
-        if task["repaired"] == "both":
-            src_fn = MeshVolumeRegion._bufferOverapproximate
-
-            def fixed_buffer(self, minBuffer, pitch):
-                import numpy as np
-                from scenic.core.regions import BoxRegion
-                from scenic.core.type_support import toVector
-                if pitch >= 1:
-                    return src_fn.__wrapped__(self, minBuffer, pitch) if hasattr(src_fn, "__wrapped__") else src_fn(self, minBuffer, pitch)
-                tp = pitch * max(self.mesh.extents)
-                vm = self.voxelized(tp, lazy=True)
-                return vm.dilation(iterations=math.ceil(minBuffer / tp) + 1)
-            from scenic.core.distributions import distributionFunction
-            MeshVolumeRegion._bufferOverapproximate = distributionFunction(fixed_buffer)
     # spin detectors: identical repeated calls whose result cannot end the loop
     calls = {"erode": [], "buffer": []}
 
@@ -1143,8 +1310,12 @@ def analyse(task):
     numpy.random.seed((seed + 1) % (2 ** 32))
     ref_scenes = []
     tb = task.get("seconds", 10)
-    racc, rit = sample_loop(ref, iters if (perr or res.get("nonterminating")) else min(iters, 400), 3,
-                            lambda s: ref_scenes.append(scene_props(s, ref)), 4 * tb if perr else tb / 3)
+    try:
+        racc, rit = sample_loop(ref, iters if (perr or res.get("nonterminating")) else min(iters, 400), 3,
+                                lambda s: ref_scenes.append(scene_props(s, ref)), 4 * tb if perr else tb / 3)
+    except Exception as e:  # the program cannot be sampled even without pruning: not a case for this property
+        res.update(status="generator-invalid", detail=f"sampling: {type(e).__name__}: {str(e)[:200]}")
+        return res
     res["ref_accepts"], res["ref_iters"] = racc, rit
     if sc is None:
         return res
@@ -1250,7 +1421,11 @@ def analyse(task):
     random.seed(seed + 3)
     numpy.random.seed((seed + 3) % (2 ** 32))
     t3 = time.time()
-    pacc, pit = sample_loop(sc, iters, max(5, want // 4), on_pruned, tb / 3)
+    try:
+        pacc, pit = sample_loop(sc, iters, max(5, want // 4), on_pruned, tb / 3)
+    except (Exception, RecursionError) as e:  # e.g. a dependency cycle introduced by conditioning
+        pacc, pit = 0, 0
+        res["sampling_error"] = (type(e).__name__, str(e)[:200])
     res["t"]["pruned_sampling"] = time.time() - t3
     res["pruned"] = {"accepted": pacc, "iters": pit, "checked": pchecked, "outside_original": new_out}
     res["stage"] = "done"
@@ -1381,7 +1556,7 @@ _pool = None
 def pool():
     global _pool
     if _pool is None:
-        n = min(12, max(2, (os.cpu_count() or 4) - 2))
+        n = int(os.environ.get("C08_WORKERS") or min(12, max(2, (os.cpu_count() or 4) - 2)))  # (override: development)
         try:
             if os.getloadavg()[0] > 2 * (os.cpu_count() or 4):  # somebody else is using the machine
                 n = max(2, n // 2)
@@ -1424,6 +1599,69 @@ def programs_start(ctx):
     return tasks, timeout, th, box
 
 
+def judge_program(task, r):
+    """The property itself, per program, from the child's report: -> (list of (key, what), outcome label)."""
+    fam = task.get("family", "program")
+    st = r.get("status")
+    if st in ("generator-invalid", "timeout"):
+        return [], st
+    if r.get("nonterminating"):
+        nt = r["nonterminating"]
+        return [(f"{nt['loop']}-retry-nonterminating",
+                 f"compilation with pruning does not terminate: the `while … is None` loop around "
+                 f"_{nt['loop']}Overapproximate repeated the identical call (amount={nt['amount']:.4g}, pitch={nt['pitch']}) "
+                 f"{nt['calls']} times, each result's .mesh being None")], "nonterminating"
+    perr = r.get("pruned_error")
+    if perr:
+        if r.get("ref_accepts", 0) > 0:
+            stage = "relations" if r.get("infer_error") else "prune"
+            return [(f"feasible-program-rejected:{stage}:{perr[0]}",
+                     f"the program compiles and has accepted samples without pruning ({r['ref_accepts']} in "
+                     f"{r['ref_iters']} iterations) but compiling with pruning raises {perr[0]}: {perr[1]}")], \
+                f"pruned-compile-raised:{perr[0]}"
+        return [], "rejected-and-no-accepted-sample(undecided)"
+    if r.get("stage") != "done":
+        return [], f"incomplete:{r.get('stage')}"
+    out = []
+    un, pr = r["unpruned"], r["pruned"]
+    if r.get("static_diff"):
+        out.append((f"non-positional-property-changed:{r['static_diff'][0][1]}",
+                    f"pruning changed a non-positional property: {r['static_diff']}"))
+    if r.get("other_conditioned"):
+        out.append(("conditioned-non-position:" + r["other_conditioned"][0],
+                    f"pruning conditioned values other than object positions: {r['other_conditioned']}"))
+    if r.get("same_as_reference") is False:
+        out.append(("unpruned-scenes-differ",
+                    "with the conditioning of positions undone, the pruned scenario does not reproduce the scenes of the "
+                    "program compiled without pruning from the same seed (pruning changed something else)"))
+    if un["outside"]:
+        o = un["outside"][0]
+        out.append((f"accepted-sample-outside-pruned-region:{fam}",
+                    f"an accepted sample of the unpruned program places object {o['obj']}'s base point at {o['point']}, "
+                    f"{o['distance']} away from the pruned sampling region {o['region']} "
+                    f"({len(un['outside'])}+ of {un['checked']} checked samples)"))
+    if pr["outside_original"]:
+        o = pr["outside_original"][0]
+        out.append((f"pruned-sample-outside-original-region:{fam}",
+                    f"the pruned program samples object {o['obj']}'s base point at {o['point']}, outside the original region "
+                    f"(distance {o['distance']})"))
+    if r.get("sampling_error"):
+        out.append((f"pruned-sampling-raised:{r['sampling_error'][0]}",
+                    f"sampling the pruned scenario raises {r['sampling_error'][0]}: {r['sampling_error'][1]} "
+                    "(the unpruned program samples fine)"))
+    # erosion never exceeds inradius − |offset| of any accepted sample (metric lemma's hypothesis r ≤ ρ − d)
+    if r.get("erosions") and r.get("margins") and r.get("nobjects") == 1 and len(r["erosions"]) == 1 and fam == "contain":
+        e = -r["erosions"][0]
+        flat = [m for m in r["margins"] if m[3]]
+        if flat and len(flat) == len(r["margins"]):
+            worst = min(m[1] for m in flat)
+            if e > worst + 1e-9:
+                out.append(("erosion-exceeds-inradius-minus-offset",
+                            f"pruneContainment eroded the container by {e}, more than (planar inradius − offset distance) = {worst} "
+                            "of an accepted sample of the object"))
+    return out, ("pruned" if r["conditioned"] else "not-pruned")
+
+
 def programs_finish(ctx, handle):
     tasks, timeout, th, box = handle
     th.join()
@@ -1443,158 +1681,83 @@ def programs_finish(ctx, handle):
                               "pruned_error": (r.get("pruned_error") or [None])[0], "detail": r.get("detail"),
                               "first_line": task["code"].splitlines()[-1][:100], "t": r.get("t")})
         rep = {"kind": "program", "code": task["code"], "seed": task["seed"], "iters": task["iters"], "want": task["want"],
-               "seconds": 4 * task["seconds"]}
+               "seconds": 4 * task["seconds"], "family": fam}
         st = r.get("status")
         if st == "harness-error":
             raise Infra("program oracle crashed in the harness: " + r.get("detail", "")[-800:])
+        verdicts, label = judge_program(task, r)
+        ctx.hist("program", f"{fam}:{label}")
         if st == "generator-invalid":
-            ctx.hist("program", f"{fam}:generator-invalid")
             ctx.hist("generator_invalid", r.get("detail", "")[:60])
             continue
         if st == "timeout":
-            ctx.hist("program", f"{fam}:timeout")
             ctx.notes.append(f"program timed out after {r['after']} s (undecided): {task['code'][:120]!r}")
             continue
         ctx.case(("program", task["code"]), nontrivial=bool(r.get("conditioned")))
-        if r.get("nonterminating"):
-            nt = r["nonterminating"]
-            if ctx.violation(f"{nt['loop']}-retry-nonterminating",
-                             f"compilation with pruning does not terminate: the `while … is None` loop around "
-                             f"_{nt['loop']}Overapproximate repeated the identical call (amount={nt['amount']:.4g}, pitch={nt['pitch']}) "
-                             f"{nt['calls']} times, each result's .mesh being None", rep):
+        if r.get("stage") == "done":
+            un, pr = r["unpruned"], r["pruned"]
+            totals["accepted"] += un["accepted"]
+            totals["checked"] += un["checked"]
+            totals["undecided"] += un["undecided"]
+            totals["pruned_checked"] += pr["checked"]
+            ctx.evaluations += un["checked"] + pr["checked"]
+            ctx.hist("accepted_unpruned", "0" if un["accepted"] == 0 else "<20" if un["accepted"] < 20 else ">=20")
+            if r.get("same_as_reference") is not None:
+                ctx.hist("reference_replay", "identical" if r["same_as_reference"] else "differs")
+            if r["conditioned"] and un["checked"]:
+                ctx.hist("pruned_and_checked", fam)
+        for key, what in verdicts:
+            if ctx.violation(key, what, dict(rep, traceback=(r.get("pruned_error") or [None, None, None])[2])):
                 found = True
-            continue
-        perr = r.get("pruned_error")
-        if perr:
-            ctx.hist("program", f"{fam}:pruned-compile-raised:{perr[0]}")
-            if r.get("ref_accepts", 0) > 0:
-                stage = "relations" if r.get("infer_error") else "prune"
-                if stage == "prune" and fam in ("visibility", "heading"):
-                    cause = diagnose(task, timeout)
-                    if cause != fam:
-                        stage = cause
-                if ctx.violation(f"feasible-program-rejected:{stage}:{perr[0]}",
-                                 f"the program compiles and has accepted samples without pruning ({r['ref_accepts']} in "
-                                 f"{r['ref_iters']} iterations) but compiling with pruning raises {perr[0]}: {perr[1]}",
-                                 dict(rep, traceback=perr[2])):
-                    found = True
-            else:
-                ctx.hist("program", f"{fam}:rejected-and-no-accepted-sample(undecided)")
-            continue
-        if r.get("stage") != "done":
-            ctx.hist("program", f"{fam}:incomplete:{r.get('stage')}")
-            continue
-        un, pr = r["unpruned"], r["pruned"]
-        totals["accepted"] += un["accepted"]
-        totals["checked"] += un["checked"]
-        totals["undecided"] += un["undecided"]
-        totals["pruned_checked"] += pr["checked"]
-        ctx.evaluations += un["checked"] + pr["checked"]
-        ctx.hist("program", f"{fam}:" + ("pruned" if r["conditioned"] else "not-pruned"))
-        ctx.hist("accepted_unpruned", "0" if un["accepted"] == 0 else "<20" if un["accepted"] < 20 else ">=20")
-        if r.get("static_diff"):
-            if ctx.violation(f"non-positional-property-changed:{r['static_diff'][0][1]}",
-                             f"pruning changed a non-positional property: {r['static_diff']}", rep):
-                found = True
-        if r.get("other_conditioned"):
-            if ctx.violation("conditioned-non-position:" + r["other_conditioned"][0],
-                             f"pruning conditioned values other than object positions: {r['other_conditioned']}", rep):
-                found = True
-        if r.get("same_as_reference") is False:
-            ctx.hist("reference_replay", "differs")
-            if ctx.violation("unpruned-scenes-differ",
-                             "with the conditioning of positions undone, the pruned scenario does not reproduce the scenes of the "
-                             "program compiled without pruning from the same seed (pruning changed something else)", rep):
-                found = True
-        elif r.get("same_as_reference"):
-            ctx.hist("reference_replay", "identical")
-        if un["outside"]:
-            o = un["outside"][0]
-            cause = fam
-            if fam in ("visibility", "heading") and not task.get("repaired"):
-                cause = diagnose(task, timeout)
-            key = f"accepted-sample-outside-pruned-region:{cause}"
-            if ctx.violation(key, f"an accepted sample of the unpruned program places object {o['obj']}'s base point at {o['point']}, "
-                                  f"{o['distance']} away from the pruned sampling region {o['region']} "
-                                  f"({len(un['outside'])}+ of {un['checked']} checked samples)", rep):
-                found = True
-        if pr["outside_original"]:
-            o = pr["outside_original"][0]
-            if ctx.violation(f"pruned-sample-outside-original-region:{fam}",
-                             f"the pruned program samples object {o['obj']}'s base point at {o['point']}, outside the original region "
-                             f"(distance {o['distance']})", rep):
-                found = True
-        # erosion never exceeds inradius − |offset| of any accepted sample (metric lemma's hypothesis r ≤ ρ − d)
-        if r.get("erosions") and r.get("margins") and r.get("nobjects") == 1 and len(r["erosions"]) == 1 and fam == "contain":
-            e = -r["erosions"][0]
-            flat = [m for m in r["margins"] if m[3]]
-            if flat and len(flat) == len(r["margins"]):
-                worst = min(m[1] for m in flat)
-                ctx.hist("erosion_amount", "checked")
-                if e > worst + 1e-9:
-                    if ctx.violation("erosion-exceeds-inradius-minus-offset",
-                                     f"pruneContainment eroded the container by {e}, more than (planar inradius − offset distance) = {worst} "
-                                     "of an accepted sample of the object", rep):
-                        found = True
     ctx.extra["program_oracle"] = totals
     return found
-
-
-def diagnose(task, timeout):
-    """An accepted sample lies outside a visibility-pruned region: is it explained by the recorded defects of the
-    voxel buffering?  Re-run with reference implementations substituted (in the child only)."""
-    def fine(r):
-        return r.get("stage") == "done" and not r["unpruned"]["outside"]
-    r1 = run_isolated("analyse", dict(task, repaired="dilation"), timeout)
-    if fine(r1):
-        return "voxel-dilation-clipped"
-    r2 = run_isolated("analyse", dict(task, repaired="both"), timeout)
-    if fine(r2):
-        return "buffer-passes-relative-pitch"
-    return task["family"]
 
 
 # =========================================================================== main
 def run(ctx):
     ctx.rule = ("cases = (a) generated comparison chains over constants / matched quantities / abs forms with all ten "
                 "comparison operators, (b) cell headings and disturbance intervals (boundary angles ±pi, wraps, wide "
-                "intervals), (c) voxel grids and pass-count arguments, (d) generated Scenic programs (containment with "
-                "offsets and random sizes, relative-heading requirements in every matched syntactic form, visibility "
-                "with static and random observers, mesh containers) x accepted samples; a program is non-trivial when "
-                "pruning conditioned at least one position; distinct by content hash")
+                "intervals), (c) voxel grids and pass-count arguments, retry loops with a stubbed conversion, dependency "
+                "graphs for the cycle check, bound pairs for the relation inference, (d) generated Scenic programs "
+                "(containment with offsets and random sizes, relative-heading requirements in every matched syntactic "
+                "form, visibility with static and random observers, mesh containers) x accepted samples; a program is "
+                "non-trivial when pruning conditioned at least one position; distinct by content hash")
     ctx.assumptions += [
         "shapely buffering / intersection, trimesh voxelisation and mesh booleans are not modelled; their "
         "over-approximation claims are checked on the real code by the program oracle and the buffer probes",
         "angles in the Lean model are rationals with an arbitrary positive half-turn P (the correspondence run uses "
         "P = Fraction(math.pi)); relative headings equal to ±pi (a null set) are excluded from cell_pair_kept",
         "the conditional-distribution theorem is for finite weighted outcome lists (atomic model of uniform sampling)",
-        "the voxel pass-count theorems are for an unbounded grid covering the region (VoxelRegion.dilation is compared "
-        "with that model on every run)",
+        "the voxel theorems are for a voxel list covering the region on an unbounded grid (VoxelRegion.dilation is "
+        "compared with that model on every run; trimesh's voxelisation covering the mesh is checked by the probes)",
     ]
     ctx.trusted_base += ["tools/translate/pruning.py (template extraction with holes)",
                          "tools/props/c08.py (correspondence harness, program generator, sample-in-region oracle)"]
     ctx.fingerprint(FINGERPRINTS)
+    if os.environ.get("C08_DEV_QUICK"):  # development only (mutation tests on scratch worktrees)
+        ctx.budget = lambda quick, thorough: quick
     from translate import pruning as tr
-    gen = None
-    try:
-        gen = tr.extract()
-        ctx.gen("Pruning", tr.to_lean(gen))
-    except TemplateMismatch as e:
-        ctx.escalated.append(f"translator tie lost (pruning): {e}")
-        ctx.notes.append(f"translator tie lost: {e}; Gen/Pruning.lean keeps its previous content, relying on "
-                         "correspondence and the program oracle at thorough budget")
+    gen, lost = tr.extract_partial()
+    for part, err in lost:
+        # the part's data falls back to the values of the pinned source (never to a stale file of an earlier run);
+        # the tie for it then rests on the correspondence runs and the program oracle at thorough budget
+        ctx.escalated.append(f"translator tie lost ({part}): {err}")
+        ctx.notes.append(f"translator tie lost ({part}): {err}; pinned data used for this part")
+    ctx.gen("Pruning", tr.to_lean(gen))
     pr = ctx.prove(THEOREMS, side_conditions=SIDE)
     if ctx.tier == "thorough" and pr.build_ok:
         ctx.leanchecker(MODULES)
-    if gen is not None:
-        ctx.extra["generated"] = {"erodeLoop": gen["erodeLoop"], "dilateCount": gen["dilateCount"],
-                                  "rh": gen["rh"], "boundOps": gen["dispatch"]["boundOps"]}
+    ctx.extra["generated"] = {"erodeLoop": gen["erodeLoop"], "bufferLoop": gen["bufferLoop"],
+                              "dilateCount": gen["dilateCount"], "dilationPads": gen["dilationPads"],
+                              "rh": gen["rh"], "boundOps": gen["dispatch"]["boundOps"]}
     found = False
     handle = programs_start(ctx)
-    found |= corr_bounds(ctx)
-    found |= corr_heading(ctx)
-    found |= corr_voxels(ctx, gen)
     try:
+        found |= corr_bounds(ctx)
+        found |= corr_heading(ctx)
+        found |= corr_voxels(ctx, gen)
+        found |= corr_loops(ctx, gen)
+        found |= corr_glue(ctx, gen)
         found |= programs_finish(ctx, handle)
         found |= erode_trigger(ctx, gen)
     finally:
@@ -1603,57 +1766,52 @@ def run(ctx):
 
 
 def replay(ctx, path):
+    """Re-execute one recorded input against the real code of $SCENIC_REPO; exit 1 (and a VIOLATION line) iff the
+    recorded violation reproduces."""
     body = json.load(open(path))
     rep = body.get("replay", body)
     kind = rep.get("kind")
     import scenic  # noqa
-    if kind == "program":
-        print(rep["code"])
-        r = run_isolated("analyse", {"code": rep["code"], "seed": rep["seed"], "iters": rep["iters"], "want": rep["want"],
-                                   "seconds": rep.get("seconds", 60)}, 1800)
-        print(json.dumps({k: v for k, v in r.items() if k not in ("margins",)}, indent=1, default=str)[:4000])
-    elif kind == "bounds":
-        from scenic.core.distributions import Range
-        from scenic.core.errors import InconsistentScenarioError
-        from scenic.syntax.relations import RequirementMatcher
-        consts = {int(k): v for k, v in rep["consts"].items()}
-        ts = {f"t{i}": _Target(i, c) for i, c in consts.items()}
-        ns = dict(ts, Q=lambda t: t.const if t.const is not None else Range(0, 1), R0=Range(0, 1), R1=Range(0, 1), abs=abs)
-        m = RequirementMatcher(ns)
-        node = ast.parse(rep["src"], mode="eval").body
-        try:
-            out = [(t.i, b) for t, b in m.matchBounds(node, lambda nd: m.matchUnaryFunction("Q", nd))]
-        except InconsistentScenarioError as e:
-            out = "InconsistentScenarioError"
-        print("requirement:", rep["src"], "\nextracted:", out, "\nsatisfying values:", rep.get("q"))
-    elif kind == "rh":
-        from scenic.core import pruning
-        print("relativeHeadingRange", rep["args"], "->", pruning.relativeHeadingRange(*rep["args"]), "disturbances", rep.get("d"), rep.get("e"))
-    elif kind == "rhkept":
-        from scenic.core import pruning
-        print("feasibleRHPolygon single cell ->", feasible_single_cell(pruning, tuple(rep["args"]), rep["lb"], rep["ub"]),
-              "; range", pruning.relativeHeadingRange(*rep["args"]), "bounds", rep["lb"], rep["ub"], "disturbances", rep["d"], rep["e"])
-    elif kind == "morph":
-        import numpy
-        import trimesh
-        from scenic.core.regions import VoxelRegion
-        dense = numpy.zeros(rep["shape"], dtype=bool)
-        for c in rep["cells"]:
-            dense[tuple(c)] = True
-        vr = VoxelRegion(voxelGrid=trimesh.voxel.VoxelGrid(trimesh.voxel.encoding.DenseEncoding(dense)))
-        out = vr.dilation(rep["k"])
-        print("dilation(", rep["k"], ") of", rep["cells"], "in grid", rep["shape"], "->",
-              sorted(tuple(int(round(x)) for x in p) for p in out.voxelGrid.points.tolist()))
-    elif kind == "bufferover":
-        from scenic.core import regions
-        reg = getattr(regions, rep["shape"])(dimensions=tuple(rep["dims"]))
-        with quiet():
-            buf = reg._bufferOverapproximate(rep["amount"], rep["pitch"])
-        print("mesh extents", rep["dims"], "buffer", rep["amount"], "-> AABB", buf.AABB)
-    elif kind == "erode-loop":
-        print(run_isolated("erode_loop", rep, 300))
-    else:
-        print(json.dumps(rep, indent=1)[:3000])
+    bad, text = False, ""
+    try:
+        if kind == "program":
+            print(rep["code"])
+            task = {"code": rep["code"], "seed": rep["seed"], "iters": rep["iters"], "want": rep["want"],
+                    "seconds": rep.get("seconds", 60), "family": rep.get("family", "program")}
+            r = run_isolated("analyse", task, 1800)
+            print(json.dumps({k: v for k, v in r.items() if k not in ("margins",)}, indent=1, default=str)[:4000])
+            verdicts, label = judge_program(task, r)
+            bad = bool(verdicts)
+            text = "; ".join(f"[{k}] {w}" for k, w in verdicts) or f"program outcome: {label}"
+        elif kind == "bounds":
+            bad, text = bounds_verdict(rep)
+        elif kind == "rh":
+            bad, text = rh_verdict(rep)
+        elif kind == "rhkept":
+            bad, text = rhkept_verdict(rep)
+        elif kind == "morph":
+            bad, text, _ = morph_verdict(rep)
+        elif kind in ("erodeit", "dilateit"):
+            bad, text, _, _ = passes_verdict(rep)
+        elif kind == "bufferover":
+            bad, text = bufferover_verdict(rep)
+        elif kind == "erode-loop":
+            r = run_isolated("erode_loop", rep, 600)
+            bad = bool(r.get("nonterminating"))
+            text = f"pruneContainment with the recorded container: {r}"
+        elif kind in GLUE_VERDICTS:
+            bad, text = GLUE_VERDICTS[kind](rep)
+        else:
+            print(json.dumps(rep, indent=1)[:3000])
+            print("nothing to re-execute (no concrete input recorded)")
+            return 0
+    finally:
+        pool().close()
+    print(text)
+    if bad:
+        print(f"VIOLATION property=C08 replay={path}")
+        return 1
+    print(f"OK property=C08 replay={path}: the recorded input does not violate the property on {ctx.repo}")
     return 0
 
 
